@@ -66,6 +66,8 @@ for n in ints:
                 pass
             chk("hexfmt-neg", ok, -n, w)
     chk("decstr", str(n) == "%d" % n, n)
+    for w in (0, 1, 2, 5, 8):
+        chk("zfill-hexfmt", ("%x" % n).zfill(w) == ("%0" + str(max(w, 1)) + "x") % n and ("%x" % -n).zfill(w) == ("%0" + str(max(w, 1)) + "x") % -n, n, w)
     if n < 2 ** 52:
         for den in (8,):
             chk("A-float-ceil", math.ceil(n / den) == -((-n) // den), n)
